@@ -166,7 +166,10 @@ let run (prop : string) (input : S.t) (observed : S.t) : S.t * string =
          else if not macc && o.acc then add ("fails:violation-accepted:" ^ rules_s)
          else if not macc && not broken then begin
            let offenders = List.concat_map (fun (_, cs) -> List.map (fun (a, b) -> (int_of_nat a, int_of_nat b)) cs) errs in
-           if not (List.exists (fun c -> List.mem c o.cites) offenders) then add ("fails:offender-not-named:" ^ rules_s)
+           (* T!! cannot be written in SDL at all: the reader refuses the text at that position and names
+              nothing; any refusal is the right answer to such a document *)
+           if not (List.mem 12 rules) && not (List.exists (fun c -> List.mem c o.cites) offenders)
+           then add ("fails:offender-not-named:" ^ rules_s)
          end;
          (* every accepted schema passes the independent re-check of what the root now holds *)
          if o.acc && not (Model.ok walked) then begin
